@@ -220,3 +220,88 @@ def concretise(deck, title='generated by vt4'):
     for extra in deck.get('extra_data', []):
         lines.append(extra)
     return '\n'.join(lines) + '\n'
+
+
+# ---------------------------------------------------------------------------
+# densities: numeric value of an MCNP number spelling, value classes
+
+def mcnp_float(text):
+    """Numeric value of an MCNP/Fortran number spelling ('5-2', '2.7d0', '-1.')."""
+    import re
+    t = text.strip().lower().replace('d', 'e')
+    m = re.match(r'^([-+]?(?:\d+\.?\d*|\.\d+))([-+]\d+)$', t)
+    if m:
+        t = m.group(1) + 'e' + m.group(2)
+    return float(t)
+
+
+def rho_class(deck, text):
+    """Class id (1-based) of a density spelling in the deck's table of values; -1 if unknown."""
+    try:
+        val = mcnp_float(text)
+    except ValueError:
+        return -1
+    for i, v in enumerate(deck.get('rhovalues', [])):
+        if v == val:
+            return i + 1
+    return -1
+
+
+def composition_info(t4, deck):
+    """For every composition name of the file: material number and density class read off the name."""
+    names = []
+    if t4['compo'] is not None:
+        names += [(it['name'], True) for it in t4['compo']['items']]
+    defined = {n for n, _ in names}
+    if t4['geomcomp'] is not None:
+        names += [(row[0], row[0] in defined) for row in t4['geomcomp'] if row and row[0] not in defined]
+    out, seen = [], set()
+    for name, isdef in names:
+        if name in seen:
+            continue
+        seen.add(name)
+        mat, rho = -1, -1
+        if name == 'm0':
+            mat, rho = 0, 0
+        elif name.startswith('m') and '_' in name:
+            head, _, dens = name[1:].partition('_')
+            if head.isdigit():
+                mat = int(head)
+            rho = rho_class(deck, dens)
+        out.append({'name': name, 'mat': mat, 'rho': rho, 'defined': bool(isdef)})
+    return out
+
+
+DENSITY_CLASSES = {
+    # value class -> spellings that differ only in trailing zeros / exponent marker (DESIGN.md C09)
+    'A': ['-2.7', '-2.70', '-2.700'],
+    'A2': ['-2.7e0', '-2.7E0', '-2.7d0', '-2.7+0'],    # numerically = A: never both for one material in one deck
+    'B': ['-1.0', '-1.00'],
+    'C': ['5e-2', '5-2', '5E-2', '5d-2'],
+    'E': ['-7.8', '-7.80'],
+    'F': ['0.0602', '0.06020'],
+    'G': ['-1.5', '-1.50'],
+}
+
+
+def decorate_materials(deck, rng, classes_for=None, spellings='all'):
+    """Give every non-filled cell a material (0, 1, 2) and a density spelling."""
+    classes_for = classes_for or {1: [rng.choice(['A', 'A2']), 'B', 'G'], 2: ['C', 'E', 'F']}
+    values = []
+    for c in deck['cells']:
+        if c['fill'] or (c['lat'] and c['lunivs']):
+            c['mat'], c['rho'], c['rhotxt'] = 0, 0, ''
+            continue
+        c['mat'] = rng.choice([0, 1, 1, 2, 2])
+        if c['mat'] == 0:
+            c['rho'], c['rhotxt'] = 0, ''
+            continue
+        cls = rng.choice(classes_for[c['mat']])
+        sp = DENSITY_CLASSES[cls]
+        c['rhotxt'] = sp[0] if spellings == 'canonical' else rng.choice(sp)
+        val = mcnp_float(c['rhotxt'])
+        if val not in values:
+            values.append(val)
+        c['rho'] = values.index(val) + 1
+    deck['rhovalues'] = values
+    return deck
